@@ -479,9 +479,28 @@ func (j *c19Judge) declared() map[string]map[[16]byte]bool {
 	}
 	if j.fmt == "par2" {
 		b, _ := os.ReadFile(j.idx)
-		for _, p := range par2rw.ParseLenient(b) {
+		pks := par2rw.ParseLenient(b)
+		// Only the files of the recovery set are protected: the first NRecovery
+		// IDs of the main packet the index itself carries (a mutated count
+		// legitimately moves files to the unprotected non-recovery set).
+		var recSet map[[16]byte]bool
+		for _, p := range pks {
+			if p.Type == par2rw.TypeMain {
+				if m, err := par2rw.DecodeMain(p.Body); err == nil && int(m.NRecovery) <= len(m.IDs) {
+					recSet = map[[16]byte]bool{}
+					for _, id := range m.IDs[:m.NRecovery] {
+						recSet[id] = true
+					}
+				}
+				break
+			}
+		}
+		for _, p := range pks {
 			if p.Type == par2rw.TypeFileDesc {
 				if d, err := par2rw.DecodeFileDesc(p.Body); err == nil {
+					if recSet != nil && !recSet[d.ID] {
+						continue
+					}
 					add(filepath.Clean(filepath.Join(j.dir, filepath.FromSlash(d.Name()))), d.Hash)
 				}
 			}
@@ -842,7 +861,16 @@ func (c *c19) Run(cs core.Case) core.Result {
 			}
 			applyDamage()
 			j.big = m.big
-			j.run(r, m.desc+" ["+p.Damage+"]")
+			alone := ""
+			if mi%3 == 2 && strings.HasPrefix(m.desc, "arch.par2#") {
+				// the mutated index stands alone: no recovery file (with its own
+				// unmutated copies of the packets) beside it
+				for _, nme := range a.names[1:] {
+					os.Remove(filepath.Join(h.dir, nme))
+				}
+				alone = ", no recovery file present"
+			}
+			j.run(r, m.desc+" ["+p.Damage+alone+"]")
 			r.Key("par2|%s|%s|%s", fam, m.desc, p.Damage)
 			n++
 		}
